@@ -59,3 +59,34 @@ func HarnessC15TemplaterOwnTemplates() {
 	vObserve("len", int64(len(u1)))
 	vReach("end")
 }
+
+// ---- C13: a scenario whose template does not parse (an action that is never closed, in the URL, a
+// header or the body) is rejected every time it is used - by the first shot and by every later one
+// (second ammo, second pass, another instance) - and never crashes; its well-formed neighbours render.
+func HarnessC13MalformedTemplate() {
+	var t Templater = NewTextTemplater()
+	if vNondetBool("html") {
+		t = NewHTMLTemplater()
+	}
+	part := vConcretize(vNondetInt("part", 0, 2))
+	bad := []string{"{{.endpoint", "{{.name}", "x{{ .request."}[vConcretize(vNondetInt("bad", 0, 2))]
+	mk := func() *gun.RequestParts {
+		p := &gun.RequestParts{URL: "/u", Method: "POST", Headers: map[string]string{"H": "v"}, Body: []byte("b")}
+		switch part {
+		case 0:
+			p.URL = bad
+		case 1:
+			p.Headers["H"] = bad
+		default:
+			p.Body = []byte(bad)
+		}
+		return p
+	}
+	for round := 0; round < 3; round++ {
+		err := t.Apply(mk(), map[string]any{}, "sc", "broken") // implicit: never panics
+		vCheck("M8.malformed.template.rejected.every.time", err != nil)
+		good := &gun.RequestParts{URL: "/ok", Method: "GET", Headers: map[string]string{"H": "w"}}
+		vCheck("M8.neighbour.renders", t.Apply(good, map[string]any{}, "sc", "fine") == nil && good.URL == "/ok")
+	}
+	vReach("end")
+}
